@@ -4,11 +4,19 @@ the j-th external command failing); the stand-ins' argv log and TMPDIR are judge
 import copy
 import itertools
 import os
+import platform
+import zlib
 
 import testrun
 import vp
 
-FIXTURE = {"fixtures/app/index.txt": "hello", "fixtures/app/sub/file": "x", "Cargo.toml": "[package]\nname = \"fixturecrate\"\nversion = \"0.0.0\"\n"}
+COMPOSITE = 'api = "0.10"\n\n[buildpack]\nid = "%s"\nversion = "0.1.0"\n\n[[order]]\n\n[[order.group]]\nid = "%s"\nversion = "1.0.0"\n'
+FIXTURE = {"fixtures/app/index.txt": "hello", "fixtures/app/sub/file": "x", "Cargo.toml": "[package]\nname = \"fixturecrate\"\nversion = \"0.0.0\"\nedition = \"2021\"\n\n[workspace]\n", "src/lib.rs": "",
+           # the crate under test is itself a (composite) buildpack, and its workspace holds a second one that depends on it: both can be
+           # packaged by libcnb-test without compiling anything
+           "buildpack.toml": COMPOSITE % ("vp/meta", "heroku/procfile"), "package.toml": '[buildpack]\nuri = "."\n\n[[dependencies]]\nuri = "docker://docker.io/heroku/procfile-cnb:2.0.1"\n',
+           "meta2/buildpack.toml": COMPOSITE % ("vp/meta2", "vp/meta"), "meta2/package.toml": '[buildpack]\nuri = "."\n\n[[dependencies]]\nuri = "libcnb:vp/meta"\n'}
+LOCAL_REFS = [["@crate"], ["@ws:vp/meta2", "heroku/procfile"], ["@ws:vp/meta", "@crate"]]
 CONTAINER_OPS = [{"op": "logs_now"}, {"op": "address_for_port", "port": 8080}, {"op": "shell_exec", "command": "ps"}, {"op": "logs_wait"}]
 CCONF = {"entrypoint": "web", "command": ["--serve"], "env": [["PORT", "8080"]], "ports": [8080, 9090], "mounts": []}
 
@@ -206,6 +214,21 @@ def position_class(body, fault, log):
 def run_tree(env, tidx, tree, sh):
     """tree = (first build config, body). Runs the baseline, then one run per fault position."""
     cfg, body = tree
+    if tidx % 3 == 1 and not env.as_nobody and platform.machine() == "x86_64":
+        # buildpacks of the crate under test and its workspace: packaged into a temporary directory that has to go away like everything else
+        # (composite buildpacks: nothing is compiled; the default musl target, whose C compiler libcnb-test merely looks up on PATH - a stand-in)
+        local = {"buildpacks": LOCAL_REFS[tidx // 3 % 3]}
+        cfg = dict(cfg, **local)
+        body = copy.deepcopy(body)
+
+        def localise(nodes):
+            for n in nodes:
+                if n["op"] == "rebuild" and zlib.crc32(b"%d" % tidx) % 3 != 0:
+                    n["config"].update(local)
+                    sh.count("rebuilds_with_locally_packaged_buildpacks")
+                localise(n.get("body", []))
+        localise(body)
+        sh.count("trees_with_locally_packaged_buildpacks")
     scenario = {"builds": [{"config": cfg, "body": body}]}
     if tidx % 5 == 4:
         # a second, independent build in the same test: its resources must not be mixed up with the first one's
@@ -330,11 +353,14 @@ def run(tier, seed, work):
     for d in vp.pmap(shard_run, [(s, work) for s in vp.split(ts, vp.NCPU * 2)]):
         res.merge(d)
     res.extra["scenario_trees"] = len(ts)
+    if platform.machine() == "x86_64":
+        res.required = ["trees_with_locally_packaged_buildpacks", "rebuilds_with_locally_packaged_buildpacks", "faults_injected"]
     res.rule = ("evaluations = scenario executions (baseline + one per fault). distinct_nontrivial = distinct (tree shape, expected pack result, preprocessor used, fault position class "
                 "[failing command kind, or panic before/inside/after a container or rebuild scope]) combinations")
     res.assumptions = ["exactly one fault per run: two simultaneous faults (which can abort via panic-in-drop) are outside the quantifier",
                        "docker and pack are stand-ins that log argv and exit as scripted; a removal command that was issued counts as removal even if that very command was the injected failure",
-                       "buildpacks are BuildpackReference::Other, so nothing is cross-compiled"]
+                       "every third scenario tree references buildpacks of the crate under test (CurrentCrate / WorkspaceBuildpack: composite buildpacks packaged into a temporary "
+                       "directory, nothing compiled); the others use BuildpackReference::Other only"]
     return res
 
 
